@@ -9,7 +9,8 @@ prop("C01",
      min_nontrivial={"quick": 1500, "thorough": 5000},
      min_obs={"quick": {"cfg_axial_compression": 50, "cfg_view_mashing": 50, "cfg_tof": 10, "cfg_tof_mashed": 5, "cfg_even_span": 20,
                         "inverse_roundtrips": 1000, "ring_pairs_checked": 1000,
-                        "cfg_more_negative_segments": 50, "cfg_more_positive_segments": 50},
+                        "cfg_more_negative_segments": 50, "cfg_more_positive_segments": 50,
+                        "cfg_tables_first_used_with_another_view_mashing": 200},
               "thorough": {"cfg_axial_compression": 1000, "cfg_tof_mashed": 100}},
      rule=("case = one generated (scanner, sampling) configuration: even detector count, 1..5/8 rings, span (odd and even), max ring "
            "difference, view mashing, TOF mashing (odd), tangential/segment truncation (symmetric and asymmetric segment ranges), mixed-span GE layout, cylindrical and "
